@@ -42,6 +42,19 @@ C10|C16)
   fi
   "$BIN.sched" -property "$PROP" -tier "$TIER" -out "$OV/summary.json" -overlay-report "$OV/report.json"
   SUMMARY="$OV/summary.json"
+  # thorough tier: auxiliary free-running pass of the same harness bodies under the
+  # Go race detector (the cooperative scheduler's hand-offs blind it, so this is a
+  # separate run; the deciding race oracle remains the vector-clock check)
+  if [ "$TIER" = thorough ]; then
+    if go build -race -modfile="$MODFILE" -tags "verif sched" -overlay "$OV/overlay.json" -o "$BIN.race" ./cmd/schedcheck > "$OV/racebuild.log" 2>&1; then
+      GORACE="halt_on_error=1 exitcode=66" "$BIN.race" -property "$PROP" -freerun 400 > "$OV/race.log" 2>&1
+      export VERIF_AUX_RACE_RC=$? VERIF_AUX_RACE_LOG="$OV/race.log"
+      tail -1 "$OV/race.log"
+    else
+      export VERIF_AUX_RACE_RC=build-failed VERIF_AUX_RACE_LOG="$OV/racebuild.log"
+    fi
+    rm -f "$BIN.race"
+  fi
   ;; esac
   ;;
 esac
